@@ -332,6 +332,13 @@ func checkC13(P *Program, r *Result, tier string) {
 						ci.calls = append(ci.calls, cal.Name())
 					} else if cal != nil && (cal == rd || cal == ln || cal == wr || cal == lns || cal == wrs) {
 						ci.recs++
+					} else if cal != nil && cal.Pkg == fn.Pkg && cal.Blocks != nil && cal != fn {
+						// an extracted helper: the recursive calls it makes count for this case
+						for _, c2 := range callsIn(cal) {
+							if g := c2.Common().StaticCallee(); g == rd || g == ln || g == wr || g == lns || g == wrs {
+								ci.recs++
+							}
+						}
 					}
 				case *ssa.TypeAssert:
 					ci.assert = types.TypeString(x.AssertedType, func(*types.Package) string { return "" })
